@@ -318,7 +318,31 @@ func runC02(p *load.Program, r *core.Report) {
 			continue
 		}
 		r.Paths++
-		bad := reaches(succ, func(in ssa.Instruction) bool { return isWakeOf(a, in, mp) }, isReturn)
+		// a wake-up may be left to the function that is initialising the target: it keeps the
+		// process in a table T until it has registered it, takes it out of T and wakes it (D6). A
+		// sender that, AFTER its push, still finds the target in T may return without a wake-up.
+		cut := map[Edge]bool{}
+		eachInstr(mp.Fn, func(in ssa.Instruction) {
+			c, ok := in.(*ssa.Call)
+			if !ok || !isSyncMapLoad(c.Common()) || !instrReachable(mp.In, in) {
+				return
+			}
+			if own, _ := fieldOwner(c.Common().Args[0]); own != a.NodeT {
+				return
+			}
+			_, path, okp := fieldPath(c.Common().Args[0])
+			if !okp || len(path) == 0 || !wakeHandedOver(a, path[len(path)-1]) {
+				return
+			}
+			if okv := tupleExtract(c, 1); okv != nil {
+				if hit, _, complete := boolEdges(okv); complete {
+					for _, e := range hit {
+						cut[e] = true
+					}
+				}
+			}
+		})
+		bad := reachAvoidEdges(succ, cut, func(in ssa.Instruction) bool { return isWakeOf(a, in, mp) }, isReturn)
 		if bad != nil {
 			r.Bad(ruleD1, key, fn, pos, inst,
 				fmt.Sprintf("a path from the accepted push reaches the return at %s without waking the process that owns the queue: the message stays in a sleeping process's mailbox", p.Pos(bad.Pos())))
@@ -647,6 +671,48 @@ func c02PushTruthful(a *Anchors, r *core.Report) {
 	}
 }
 
+// wakeHandedOver: some function that switches a fresh process to Sleep (the D6 function) removes the
+// process from the node's table `table` and wakes it afterwards (the Delete dominates the wake-up).
+func wakeHandedOver(a *Anchors, table string) bool {
+	ws := procWordSpec(a)
+	for _, op := range stateOps(a.P, ws.owner, ws.field) {
+		if !(op.Kind == "plainstore" || op.Kind == "store") || !op.HasNew || op.New != ws.sleep {
+			continue
+		}
+		f := op.Fn
+		var del ssa.Instruction
+		eachInstr(f, func(in ssa.Instruction) {
+			c, ok := in.(*ssa.Call)
+			if !ok {
+				return
+			}
+			if m, okm := syncMapCall(c.Common()); !okm || m != "Delete" {
+				return
+			}
+			if own, _ := fieldOwner(c.Common().Args[0]); own != a.NodeT {
+				return
+			}
+			if _, path, okp := fieldPath(c.Common().Args[0]); okp && len(path) > 0 && path[len(path)-1] == table && instrReachable(op.In, in) {
+				del = in
+			}
+		})
+		if del == nil {
+			continue
+		}
+		ok := false
+		eachInstr(f, func(in ssa.Instruction) {
+			cc := callCommon(in)
+			if cc != nil && staticCallee(cc) == a.ProcWake && len(cc.Args) > 0 && canon(cc.Args[0]) == op.Base && instrDominates(del, in) {
+				ok = true
+			}
+		})
+		if ok {
+			return true
+		}
+	}
+	return false
+}
+
 // c02InitKick: D6 — messages accepted while the process was still initialising (state Init: the
 // senders' wake-ups were no-ops) are picked up by a wake-up after the state became Sleep. From the
 // initial store of Sleep every path to a return either wakes the process or has seen every queue empty.
@@ -771,6 +837,17 @@ func c02Lookup(a *Anchors, r *core.Report, pushes []mailboxPush) {
 				if own, _ := fieldOwner(cc.Args[0]); own != a.NodeT {
 					return
 				}
+				// the lookup that finds the addressee precedes the push; a lookup made after the
+				// push (is the target still being initialised? see D1) is not a lookup of the target
+				before := false
+				for _, mp := range pushes {
+					if mp.Fn == f && instrReachable(in, mp.In) {
+						before = true
+					}
+				}
+				if !before {
+					return
+				}
 				if v, isV := in.(ssa.Value); isV {
 					okVal = tupleExtract(v, 1)
 					_, path, _ := fieldPath(cc.Args[0])
@@ -809,7 +886,16 @@ func c02Lookup(a *Anchors, r *core.Report, pushes []mailboxPush) {
 				return
 			}
 			_, fls, complete := boolEdges(okVal)
-			if !complete {
+			feedsChain := false
+			if refs := okVal.Referrers(); refs != nil {
+				for _, rf := range *refs {
+					if _, isPhi := rf.(*ssa.Phi); isPhi {
+						feedsChain = true
+					}
+				}
+			}
+			if !complete || feedsChain {
+				complete = false
 				// a fallback chain: "look in table A, if it is not there look in table B" merges the
 				// two results; the failure edge is the one on which the merged result is false.
 				// Judged once, at the last lookup of the chain.
